@@ -252,7 +252,7 @@ func checkC19(c caseC19) (viol string, nontrivial bool, feats []string) {
 				return fmt.Sprintf("%s: error %q, without options %q", name, errStr(r.a.Err), errStr(base.a.Err)), false, feats
 			case r.a.Log != base.a.Log:
 				return fmt.Sprintf("%s: log %q, without options %q", name, clip(r.a.Log, 300), clip(base.a.Log, 300)), false, feats
-			case !eqBlocks(r.a.Blocks, base.a.Blocks) || (r.a.Blocks == nil) != (base.a.Blocks == nil):
+			case !eqBlocks(r.a.Blocks, base.a.Blocks):
 				return fmt.Sprintf("%s: blocks differ from the run without options", name), false, feats
 			case !eqBinding(r.a.Binding, base.a.Binding):
 				return fmt.Sprintf("%s: binding differs from the run without options", name), false, feats
